@@ -478,4 +478,32 @@ example : (match C02.introspect exCfg2 (runEv exCtx exCfg2 exS0 [.req 102 (exReq
 example : C11.EnvOK C11.Props.exEnv ∧ C11.WInv C11.Props.exEnv C11.Props.exWorld ∧ (∀ u, exCtx.base.didOfURL u ≠ some "") :=
   ⟨C11.Props.exEnv_ok, C11.Props.exWorld_inv, by intro u; show (if _ then _ else _) ≠ _; split <;> simp⟩
 
+
+/-- a second instance with a NON-trivial Presentation Exchange leg: one input descriptor with a constraint field `issuer_did`
+    at `$.issuer`; the envelope carries the presented credential; the descriptor map points at it -/
+def exCredJ (c : C01.Cred) : C12.J := .obj [("issuer", .str c.issuer), ("id", .str (c.id.getD ""))]
+def exGlue2 : Glue :=
+  { exGlue with
+    view := fun c => { fmt := "ldp_vc", key := c.id.getD "", raw := c.id.getD "", tree := exCredJ c }
+    envJ := fun vps => .obj [("verifiableCredential",
+      match vps.flatMap (·.vcs) with
+      | [c] => exCredJ c
+      | l => .arr (l.map exCredJ))]
+    pdOf := fun _ => { id := "pd_org", descs := [{ id := "d1", constraints := some [{ id := some "issuer_did", paths := [some { steps := [.key "issuer"] }] }] }] }
+    render := fun vals => vals.map (fun p => (p.1, match p.2 with | some (.str s) => s | _ => "")) }
+def exDecode : C12.Decoder := fun j _ =>
+  match j with
+  | .obj [("issuer", .str iss), ("id", .str id)] =>
+    some { cred := some { fmt := "ldp_vc", key := id, raw := id, tree := .obj [("issuer", .str iss), ("id", .str id)] }, asMap := some j }
+  | _ => none
+def exCtx2 : Ctx := { exCtx with g := exGlue2, decode := exDecode }
+def exReq2 (nonce : String) : Req :=
+  { exReq nonce with sub := [{ top := { id := "d1", fmt := "ldp_vc", path := some C12.vcPathSingle } }] }
+
+/-- the token's introspected claims are what C12 resolved from the presented (and C01-verified) credential -/
+example : (match C02.introspect exCfg2 (runEv exCtx2 exCfg2 exS0 [.req 102 (exReq2 "n1")]).as 200 "tok#0" with
+    | .ok (some ri) => ri.additional | _ => []) = [("issuer_did", "did:x:i")] := by decide
+/-- a descriptor map that points nowhere is refused by C12's `Validate`, hence no token -/
+example : (stepEv exCtx2 exCfg2 exS0 (.req 102 (exReq "n1"))).2 = some (.err "invalid_request/pd-not-conform") := by decide
+
 end Nuts.Compose.Cred.Props
